@@ -14,6 +14,8 @@ mod kvs;
 mod reference_counter;
 mod tree;
 mod verifier;
+#[cfg(rescrv_blue_verif)]
+pub mod verif;
 
 pub use kvs::{KeyValueStore, WriteBatch};
 pub use tree::{CompactionID, LsmTree, NUM_LEVELS};
